@@ -5,6 +5,7 @@ pub mod c07;
 pub mod c08;
 pub mod c13;
 pub mod c14;
+pub mod buschecks;
 
 /// One property check. Cases are numbered globally (0..total); case `i` derives all its random
 /// choices from (seed, i), so a violation replays from those two numbers alone.
@@ -33,7 +34,7 @@ pub trait Check: Sync {
 }
 
 pub fn all() -> Vec<Box<dyn Check>> {
-    vec![Box::new(c01::C01), Box::new(c07::C07), Box::new(c08::C08), Box::new(c13::C13), Box::new(c14::C14)]
+    vec![Box::new(c01::C01), Box::new(c07::C07), Box::new(c08::C08), Box::new(c13::C13), Box::new(c14::C14), Box::new(buschecks::C02), Box::new(buschecks::C03), Box::new(buschecks::C04), Box::new(buschecks::C10)]
 }
 
 pub fn find(id: &str) -> Option<Box<dyn Check>> {
